@@ -88,3 +88,16 @@ Proof.
   intros S xs w ys. split; [exact (StarStringProofs.from_string_weight_call S xs w ys)|exact (StarStringProofs.from_string_weight S xs w ys)].
 Qed.
 Print Assumptions C12_from_string.
+
+(* WFSA.from_string as regenerated from wfsa/base.py on every run (states = prefixes, named by their lengths) is the
+   model C12_from_string is about; the correspondence run evaluates the regenerated definition. *)
+From GV.gen Require Gen_FromString.
+From GV.proofs Require GenFromStringBridge.
+Theorem C12_code_from_string_is_model : forall (S : SR) (xs : list nat) (w : S) (ys : list nat),
+  Gen_FromString.gen_from_string S xs w = StarStringProofs.from_string xs w /\
+  weight (Gen_FromString.gen_from_string S xs w) ys = (if list_eqb Nat.eqb ys xs then w else s0).
+Proof.
+  intros S xs w ys. split; [exact (GenFromStringBridge.gen_from_string_model S xs w)|].
+  rewrite (GenFromStringBridge.gen_from_string_model S xs w). exact (StarStringProofs.from_string_weight_call S xs w ys).
+Qed.
+Print Assumptions C12_code_from_string_is_model.
